@@ -248,6 +248,11 @@ def c08_jobs(tier):
         des("resource-and-pool", "progress", b, dl, procs=3, prios="0,1,2", budget=4, res=1, pool=2,
             ops="racq0,rrel0,rpre0,pacq1,pacq2,ppre2,prel1,prel2,hold0,hold1,int0,stop0,exit",
             script0="pacq2,racq0,hold2", script1="hold1,racq0,hold1", script2="hold1,ppre2,hold1"),
+        # those who wait for a resource through an observing condition: two conditions observe the same guard and are
+        # subscribed and unsubscribed in every order; a release (or the holder's end) reaches every condition still subscribed
+        des("two-observers", "progress,condition", b, dl, procs=3, prios="0,1,2", budget=6, cond=1, res=1,
+            ops="csub,cunsub,csubb,cunsubb,cwait3,racq0,rrel0,hold0,hold1,exit",
+            script0="racq0,csubb,csub,cunsubb,hold1,rrel0", script1="hold0,cwait3,hold1", script2="hold1,cwait3,hold1"),
         des("priorityqueue", "progress", b, dl, procs=3, prios="0,1,1", budget=L, pq=1,
             ops="pqput0,pqput1,pqget,pqcancel,hold0,hold1,tadd1,tadd1u,int0,int1,stop0,stop1,exit",
             script0="pqput0,pqput1,hold1", script1="pqget,hold1,pqget", script2="pqget,pqput0"),
@@ -380,6 +385,20 @@ def c06_jobs(tier):
         des("objectqueue-lost-race", "order", 2, dl, procs=3, prios="0,0,0", budget=8, oq=1,
             ops="oqput0,oqget,hold0,hold1,hold2,int1,exit",
             script0="hold2,oqput0,oqget,hold2,oqput0,hold2", script1="oqget,hold1", script2="hold1,oqget,hold1"),
+        # a producer / consumer whose load is only partly served and who queues again for the rest inside the same call:
+        # it keeps its place ahead of those who arrived after it (all five multi-step calls: buffer put and get, pool acquire)
+        des("buffer-put-partial", "order", 2, dl, procs=4, prios="0,0,0,0", budget=6, buf=2,
+            ops="bput1,bput2,bget1,hold0,hold1,hold2,hold3,exit",
+            script0="bput2,hold3", script1="hold1,bput2,hold1", script2="hold2,bput1,hold1",
+            script3="hold3,bget1,hold1,bget1,hold1,bget1"),
+        des("buffer-get-partial", "order", 2, dl, procs=4, prios="0,0,0,0", budget=6, buf=2,
+            ops="bput1,bget1,bget2,hold0,hold1,hold2,hold3,exit",
+            script0="hold3", script1="hold1,bget2,hold1", script2="hold2,bget1,hold1",
+            script3="hold3,bput1,hold1,bput1,hold1,bput1"),
+        des("pool-acquire-partial", "order", 2, dl, procs=4, prios="0,0,0,0", budget=6, pool=2,
+            ops="pacq1,pacq2,prel1,hold0,hold1,hold2,hold3,exit",
+            script0="pacq2,hold3,prel1,hold1,prel1", script1="hold1,pacq2,hold1", script2="hold2,pacq1,hold1",
+            script3="hold3"),
         # 7-17 waiters (the waiting list grows once or twice) x interrupt / stop / priority change / timeout / cancel of the
         # first, last or middle waiter: service order by priority, then arrival
         dict(name="waiters-7-17", harness="c10_ramps", opts=dict(mode="guardq", prop="c06"), bound_min=0, bound_max=0,
@@ -496,6 +515,11 @@ def c09_jobs(tier):
             script0="racq0,hold2", script1="racq0,hold1", script2="hold1,stop1,start1"),
         des("selfstop-p2", "endoflife", b, dl, procs=2, prios="0,0", budget=4, res=1, pool=2, ops=ops,
             script0="racq0,pacq2,tadd1,stopself", script1="waitp0,racq0,hold1"),
+        # the waiter's side: its own timer (or an interrupt, or a resume) falls in the very instant in which the process it
+        # waits for is stopped or ends; it is told once, and nothing of that wait can reach a later call
+        des("waiter-timer-meets-end-p3", "endoflife,notif", b, dl, procs=3, prios="0,0,1", budget=4,
+            ops="hold0,hold1,hold2,tadd1,tadd1u,tadd2,waitp0,stop0,stopself,exit,return,int1,yield,resume1",
+            script0="hold2,hold1", script1="tadd1,waitp0,hold1,hold1", script2="hold1,stop0,hold1"),
         # what the ended process held is also offered to those who wait for it through an observing condition
         # (nobody queued at the resource or pool itself)
         des("observed-resource-p3", "endoflife,condition", b, dl, procs=3, prios="0,1,2", budget=3, res=1, cond=1,
@@ -815,7 +839,7 @@ def c10_jobs(tier):
                  subscribe="res", ops=UNION_OPS, script0="racq0,hold1,rrel0", script1="pacq2,hold1,prel1",
                  script2="tadd1,bget2,hold1", fptrap=1), crash_is_violation=True),
         ramp("evwait"), ramp("procwait"), ramp("guardq"), ramp("holders"), ramp("timers", 600), ramp("oqueue", 600),
-        ramp("observers", 600), ramp("closing"), ramp("restart"),
+        ramp("observers", 600), ramp("closing"), ramp("restart"), ramp("manywaiters", 900),
         dict(ramp("closing"), name="ramp-closing-fptrap", opts=dict(mode="closing", fptrap=1)),
         # data arrays on both sides of their growth point (1023-2049 samples), copied onto targets with an earlier life
         dict(name="data-arrays", harness="c18_data", opts=dict(mode="big"), bound_min=0, bound_max=0, deadline=600,
